@@ -37,3 +37,17 @@ Proof. intros Hl Hn. unfold tmo_one. rewrite Hl, Hn. reflexivity. Qed.
 Example stale_boundary :
   (600000000000 <? 600000000001 - 0) = true /\ (600000000000 <? 600000000000 - 0) = false.
 Proof. split; reflexivity. Qed.
+
+(* C06 / C15, "starts at the configured value": the exact estimator of the client model (Agent/RttExact.v) hands a request the
+   CONFIGURED interval while it has no sample: for a fresh client, and whenever more than 600 s have passed since the previous
+   request (whatever was learned before) *)
+From Rustun Require Import Agent.F32 Agent.RttExact.
+Lemma fresh_interval_is_configured rto gran now : est_rto_for_send (est0 rto gran) now = rto.
+Proof. reflexivity. Qed.
+Lemma stale_interval_is_configured s now l :
+  e_last s = Some l -> (600000000000 <? now - l) = true -> est_rto_for_send s now = rc_conf (e_calc s).
+Proof. intros Hl Hs. unfold est_rto_for_send, est_send. rewrite Hl, Hs. reflexivity. Qed.
+Lemma configured_is_kept_send s now : rc_conf (e_calc (est_send s now)) = rc_conf (e_calc s).
+Proof. unfold est_send. destruct (e_last s) as [l|]; [destruct (600000000000 <? now - l)|]; reflexivity. Qed.
+Lemma configured_is_kept_update c r : rc_conf (rtt_update c r) = rc_conf c.
+Proof. unfold rtt_update. destruct (rc_srtt c =? 0); reflexivity. Qed.
